@@ -14,7 +14,7 @@ from vlib.core import Stage, fail
 ID = "C17"
 MANIFEST = {
     "category": "exploration",
-    "text": "Generated-input search against an oracle written from the statement: value pools of 1-5 entries (valid AHB expressions of all documented forms, incl. packages) x entered input in {absent, empty, an offered qualifier, a pool qualifier that is not offered, a foreign value} x parent status in {required, optional, forbidden} x content evaluation results incl. UNKNOWN, through validate_data_element_valuepool directly and through validate_segment. possible_values must list exactly the qualifiers whose own expression is fulfilled, in pool order, with their meanings; nothing offered or forbidden segment => IS_FORBIDDEN with nothing offered; entered value offered => ..._AND_FILLED and not flagged; entered non-empty value not offered => flagged (format_validation_fulfilled False, hint naming the value) and ..._AND_EMPTY; no input => ..._AND_EMPTY, not flagged.",
+    "text": "Generated-input search against an oracle written from the statement: value pools of 1-5 entries (valid AHB expressions of all documented forms, incl. packages) x entered input in {absent, empty, an offered qualifier, a pool qualifier that is not offered, a foreign value} x parent status in {required, optional, forbidden} x content evaluation results incl. UNKNOWN, through validate_data_element_valuepool directly and through validate_segment. possible_values must list exactly the qualifiers whose own expression is fulfilled, in pool order, with their meanings; nothing offered or forbidden segment => IS_FORBIDDEN with nothing offered; entered value offered => ..._AND_FILLED and not flagged; entered non-empty value not offered => flagged (format_validation_fulfilled False) and ..._AND_EMPTY; no input => ..._AND_EMPTY, not flagged.",
     "note": "Trusted: the reference evaluation of entry expressions (vlib/ref.py) and the oracle in this module. Whether a non-forbidden pool is reported REQUIRED or OPTIONAL is not constrained by the statement and not checked.",
     "technique": "property-based testing against a reference predicate (offered set computed by the reference evaluator)",
 }
@@ -65,8 +65,6 @@ def judge(result, element, offered, parent_forbidden, what):
             fail("unexpected-value", f"{what}: entered {entered!r} is not offered ({offered}) but was not flagged")
         if not status.endswith("_AND_EMPTY"):
             fail("unexpected-value", f"{what}: entered {entered!r} is not offered but status is {status}, not ..._AND_EMPTY")
-        if not (isinstance(result.hints, str) and entered in result.hints):
-            fail("unexpected-value", f"{what}: the hint {result.hints!r} does not name the unexpected value {entered!r}")
     else:
         if not status.endswith("_AND_EMPTY"):
             fail("no-input", f"{what}: no input but status is {status}")
